@@ -8,6 +8,12 @@
 3. The in-package Go harness runs them on a REAL MultiClientConn wired to a REAL multiMuxManager (production dial
    options, real yamux sessions on pipes, a real gRPC server per session answering with its session id).
 4. TLC evaluates ClientConnObs.tla on the recorded events: the only source of VIOLATION.
+Two environment dimensions beyond add / kill / call: a HELD add (a gate listener registered in front of the
+MultiClientConn's parks the notification of that AddConnection while other sessions are killed; with notifyChange under
+the table lock this equals add-then-kill, with the add published outside the lock the removal overtakes it and the
+stale list lands last) and a WEDGED session (its peer answers pings but never accepts a stream, so the client
+connection's connect attempt hangs inside session.Open). Every read of the manager / client connection by the harness
+is bounded, so a tree that never releases a lock gives `progress`, not a test timeout.
 """
 import json
 import os
@@ -182,6 +188,7 @@ def run(c, a):
     if len(runs) != len(scheds):
         raise Broken("%d schedules in, %d runs out" % (len(scheds), len(runs)))
     codes, cmds, inflight_killed, updates, empties = {}, {}, 0, 0, 0
+    held = {"adds_held": 0, "notified_under_table_lock": 0, "kills_while_held": 0, "wedged_sessions": 0}
     for r in runs:
         arr, killed = {}, set()
         for e in r:
@@ -197,6 +204,12 @@ def run(c, a):
                 cmds[kk] = cmds.get(kk, 0) + 1
                 if e["a"] == "Kill":
                     killed.add(e["k"])
+                    held["kills_while_held"] += 1 if e.get("held") else 0
+                if e["a"] == "Add" and e.get("w"):
+                    held["wedged_sessions"] += 1
+            elif e["ev"] == "Held":
+                held["adds_held"] += 1
+                held["notified_under_table_lock"] += 1 if e["underLock"] else 0
             elif e["ev"] == "Update":
                 updates += 1
                 empties += 1 if not e["keys"] else 0
@@ -205,7 +218,7 @@ def run(c, a):
     c.coverage.update({
         "schedules_replayed": len(runs), "unrealised": unreal, "events_validated": len(lines),
         "runs_with_violation": len(bad_runs), "violation_clauses": clauses, "rpc_results": codes, "commands_by_kind": cmds,
-        "calls_failed_in_flight_on_killed_session": inflight_killed, "updates": updates, "updates_to_empty_set": empties,
+        "calls_failed_in_flight_on_killed_session": inflight_killed, "held_adds_and_wedged_sessions": held, "updates": updates, "updates_to_empty_set": empties,
         "evaluations": len(runs), "distinct_nontrivial": nontrivial,
         "rule": "distinct schedules of session additions, kills (peer hang-up / local Close), call bursts at quiescent points "
                 "and calls held in flight, generated by TLC from ClientConnSim for pools of 1..3 slots; non-trivial = at least "
